@@ -111,19 +111,12 @@ const USAGES: &[&str] = &[
     "local r = setmetatable({}, { __index = v })\nlocal s = r.x\nlocal t = setmetatable(v, v)\n",
 ];
 
-fn recursive_case(rng: &mut Rng) -> String {
-    let (decl, tyname) = rng.pick(RECURSIVE_DECLS);
+/// One recursive declaration x one usage (enumerated exhaustively in every run).
+fn recursive_case(d: usize, u: usize) -> String {
+    let (decl, tyname) = RECURSIVE_DECLS[d % RECURSIVE_DECLS.len()];
     let mut t = String::from(decl);
-    if rng.chance(1, 3) {
-        let (d2, _) = rng.pick(RECURSIVE_DECLS);
-        if d2 != decl {
-            t.push_str(d2);
-        }
-    }
     t.push_str(&format!("---@type {tyname}\nlocal v\n"));
-    for _ in 0..rng.range(1, 3) {
-        t.push_str(&rng.pick(USAGES).replace("---@type T", &format!("---@type {tyname}")).replace("--[[@as T]]", &format!("--[[@as {tyname}]]")));
-    }
+    t.push_str(&USAGES[u % USAGES.len()].replace("---@type T", &format!("---@type {tyname}")).replace("--[[@as T]]", &format!("--[[@as {tyname}]]")));
     t
 }
 
@@ -139,9 +132,7 @@ fn gen_case(rng: &mut Rng, corpus: &Corpus) -> Case {
     let mut files = Vec::new();
     // recursive-types cases run in a child process each (and are re-run under gdb when they die):
     // a small share is enough, every (declaration, usage) pair is reached within a few runs
-    let roll = if rng.below(30) == 0 { 10 } else { rng.below(10) };
-    let family: &'static str = match roll {
-        10 => "recursive-types",
+    let family: &'static str = match rng.below(10) {
         0..=3 => "corpus-mutant",
         4..=5 => "adversarial",
         6 => "corpus",
@@ -164,7 +155,6 @@ fn gen_case(rng: &mut Rng, corpus: &Corpus) -> Case {
                 }
                 t
             }
-            "recursive-types" => recursive_case(rng),
             "corpus" => corpus.pick(rng).to_string(),
             "annot-soup" => {
                 // annotation-heavy soup: doc tags on their own lines, glued to simple statements
@@ -391,6 +381,37 @@ pub fn run(ctx: &mut Ctx) {
         return;
     }
     let n = ctx.budget(1500, 60_000);
+    // ---- recursive type declarations x usages: every pair, every run, one sacrificial child process
+    //      each (a stack overflow aborts the process); the signature is the pair itself ----------
+    let pairs = RECURSIVE_DECLS.len() * USAGES.len();
+    for k in 0..pairs {
+        if k % ctx.nshards.max(1) as usize != ctx.shard as usize {
+            continue;
+        }
+        let (d, u) = (k / USAGES.len(), k % USAGES.len());
+        let c = Case { files: vec![("main.lua".to_string(), recursive_case(d, u))], version: 5, strict: 0, family: "recursive-types" };
+        let cj = case_json(&c);
+        ctx.clause("family:recursive-types");
+        let tyname = RECURSIVE_DECLS[d].1.split('<').next().unwrap_or("");
+        match crate::util::isolated("C12", &cj, &ctx.work.clone(), 600) {
+            crate::util::ChildOutcome::Held => {
+                ctx.clause("no-panic:index+diagnose+queries");
+                ctx.held(fnv(c.files[0].1.as_bytes()), true);
+            }
+            crate::util::ChildOutcome::Violated(_) => judge(ctx, &c, 0, None),
+            crate::util::ChildOutcome::Died(sig) => {
+                // confirm once
+                if let crate::util::ChildOutcome::Died(_) = crate::util::isolated("C12", &cj, &ctx.work.clone(), 600) {
+                    ctx.violated(&format!("C12:abort:recursive-type:decl={tyname}:use={u}"), &format!("process killed by signal {sig} (stack overflow) analysing {:?}", c.files[0].1), cj);
+                } else {
+                    ctx.inconclusive("child-death-not-repeatable");
+                }
+            }
+            crate::util::ChildOutcome::Timeout => ctx.inconclusive("child-watchdog"),
+            crate::util::ChildOutcome::Error(e) => ctx.inconclusive(&format!("child-error:{}", clip(&e, 40))),
+        }
+    }
+
     // batches of cases run on ONE 2 MiB-stack thread (a thread per case costs more than the case);
     // each case is announced from inside the batch so that an abort is attributed to it
     let batch = 40u64;
@@ -400,34 +421,7 @@ pub fn run(ctx: &mut Ctx) {
             break;
         }
         let hi = (i + batch).min(n);
-        let all: Vec<Case> = (i..hi).map(|k| gen_case(&mut Rng::new(ctx.case_seed(k)), &corpus)).collect();
-        // the families that aim at unbounded recursion run one case per sacrificial child process:
-        // a stack overflow aborts the process and would take the rest of the shard with it
-        let (risky, cases): (Vec<Case>, Vec<Case>) = all.into_iter().partition(|c| c.family == "recursive-types");
-        for c in &risky {
-            let cj = case_json(c);
-            ctx.clause(&format!("family:{}", c.family));
-            match crate::util::isolated("C12", &cj, &ctx.work.clone(), 600) {
-                crate::util::ChildOutcome::Held => {
-                    ctx.clause("no-panic:index+diagnose+queries");
-                    let mut h = (c.version as u64) << 8 | c.strict as u64;
-                    for (n, t) in &c.files {
-                        h = h.wrapping_mul(1099511628211).wrapping_add(fnv(n.as_bytes()) ^ fnv(t.as_bytes()));
-                    }
-                    ctx.held(h, true);
-                }
-                crate::util::ChildOutcome::Violated(_) => {
-                    // a panic: judge in-process to get the shrunk witness and the signature
-                    judge(ctx, c, 0, None);
-                }
-                crate::util::ChildOutcome::Died(sig) => {
-                    let cls = crate::util::abort_signature("C12", &cj, &ctx.work.clone());
-                    ctx.violated(&format!("C12:abort:{cls}"), &format!("process killed by signal {sig}; files: {:?}", c.files.iter().map(|(n, t)| format!("{n}: {}", clip(t, 300))).collect::<Vec<_>>()), cj);
-                }
-                crate::util::ChildOutcome::Timeout => ctx.inconclusive("child-watchdog"),
-                crate::util::ChildOutcome::Error(e) => ctx.inconclusive(&format!("child-error:{}", clip(&e, 40))),
-            }
-        }
+        let cases: Vec<Case> = (i..hi).map(|k| gen_case(&mut Rng::new(ctx.case_seed(k)), &corpus)).collect();
         let results = {
             let ctx_cell = std::sync::Mutex::new(&mut *ctx);
             on_stack(STACK, || {
